@@ -232,6 +232,15 @@ def number(draw, d):
 
 
 @st.composite
+def sarg(draw, d):
+    """an argument where a string is expected: usually a string expression, sometimes an expression of another type (the
+    argument is converted as if by string(): XPath 3.2) - the implementation's shortcuts must not leak the original type"""
+    if draw(st.sampled_from([0, 0, 0, 1])):
+        return draw(st.one_of(number(d), boolean(d), nodeset(d)))
+    return draw(string(d))
+
+
+@st.composite
 def string(draw, d):
     k = draw(st.integers(0, 14))
     if d <= 0:
@@ -257,20 +266,20 @@ def string(draw, d):
         for i in range(n):
             if i:
                 toks.append(',')
-            toks += draw(string(d - 1))
+            toks += draw(sarg(d - 1))
         return toks + [')']
     if k <= 7:
-        toks = ['substring', '('] + draw(string(d - 1)) + [','] + draw(st.one_of(number(d - 1), st.sampled_from([['0'], ['1.5'], ['-1'], ['0', 'div', '0'], ['1', 'div', '0'], ['-1', 'div', '0'], ['2']])))
+        toks = ['substring', '('] + draw(sarg(d - 1)) + [','] + draw(st.one_of(number(d - 1), st.sampled_from([['0'], ['1.5'], ['-1'], ['0', 'div', '0'], ['1', 'div', '0'], ['-1', 'div', '0'], ['2']])))
         if draw(st.booleans()):
             toks += [','] + draw(st.one_of(number(d - 1), st.sampled_from([['0'], ['2.6'], ['3'], ['0', 'div', '0'], ['1', 'div', '0']])))
         return toks + [')']
     if k == 8:
         fn = draw(st.sampled_from(['substring-before', 'substring-after']))
-        return [fn, '('] + draw(string(d - 1)) + [','] + draw(string(d - 1)) + [')']
+        return [fn, '('] + draw(sarg(d - 1)) + [','] + draw(st.one_of(sarg(d - 1), st.just(["''"]))) + [')']
     if k == 9:
-        return ['normalize-space', '('] + draw(string(d - 1)) + [')']
+        return ['normalize-space', '('] + draw(sarg(d - 1)) + [')']
     if k == 10:
-        return ['translate', '('] + draw(string(d - 1)) + [',', draw(st.sampled_from(["'abc'", "'aab'", "'xy '", "''", "'a'", "'\xe9b'"])), ',',
+        return ['translate', '('] + draw(sarg(d - 1)) + [',', draw(st.sampled_from(["'abc'", "'aab'", "'xy '", "''", "'a'", "'\xe9b'"])), ',',
                                                           draw(st.sampled_from(["'ABC'", "'X'", "''", "'xyz1'", "'E'"])), ')']
     if k == 11:
         fn = draw(st.sampled_from(['name', 'local-name', 'namespace-uri']))
